@@ -32,13 +32,13 @@ TPeriod ==
   /\ IF CanPeriod(s) /\ E.id = s.id
        THEN s' = Period(s, E.remLo, E.remHi,
                         [Lpos |-> E.Lpos, integral |-> E.integral, nlo |-> E.nlo, nhi |-> E.nhi,
-                         fLo |-> E.fLo, cHi |-> E.cHi])
+                         fLo |-> E.fLo, cHi |-> E.cHi, pem |-> E.pem])
        ELSE s' = s /\ Order("Period")
 TPts ==
   /\ E.e = "Pts" /\ Step /\ UNCHANGED cnt
   /\ IF CanPts(s) /\ E.id = s.id
-       THEN s' = IF s.isInt /\ ~s.per THEN Pts(s, E.xa, E.xr, E.xv, E.yx)
-                                      ELSE Pts(s, E.xa, E.xr, <<>>, <<>>)
+       THEN s' = IF s.isInt /\ ~s.per THEN Pts(s, E.xa, E.xr, E.xv, E.yx, E.em)
+                                      ELSE Pts(s, E.xa, E.xr, <<>>, <<>>, E.em)
        ELSE s' = s /\ Order("Pts")
 \* the result is complete: decide the clauses
 TDone ==
